@@ -15,16 +15,34 @@
 (***************************************************************************)
 EXTENDS Naturals, Sequences, FiniteSets, TLC
 
-CONSTANTS Addrs, Contents, Cap, Pin, MaxOps
+CONSTANTS
+    \* @type: Set(Int);
+    Addrs,
+    \* @type: Set(Int);
+    Contents,
+    \* @type: Int;
+    Cap,
+    \* @type: Bool;
+    Pin,
+    \* @type: Int;
+    MaxOps
 
-VARIABLES heap, cache, last, ops
+VARIABLES
+    \* @type: Int -> Int;
+    heap,
+    \* @type: Seq({addr: Int, res: Int});
+    cache,
+    \* @type: {content: Int, res: Int};
+    last,
+    \* @type: Int;
+    ops
 vars == <<heap, cache, last, ops>>
 
 Live == DOMAIN heap
 Pinned == IF Pin THEN {cache[k].addr : k \in DOMAIN cache} ELSE {}
 Hit(a) == {k \in DOMAIN cache : cache[k].addr = a}
 
-Init == heap = <<>> /\ cache = <<>> /\ last = [content |-> 0, res |-> 0] /\ ops = 0
+Init == heap = [x \in {} |-> 0] /\ cache = <<>> /\ last = [content |-> 0, res |-> 0] /\ ops = 0
 
 Alloc(c) == /\ ops < MaxOps
             /\ \E a \in Addrs \ (Live \cup Pinned) :
